@@ -75,22 +75,22 @@ def check_C15(tier):
         if names != {want}:
             print("DRIFT: default output name %r differs from the transcription %r" % (names, want), flush=True)
     # default names of a process with several out-ports: each port's name is built from ITS port name and extension
-    mreq = dict(op="expand", proc="multi", cmd="tool {i:in} > {o:res|.tsv} 2> {o:log|.txt} 3> {o:aux}", outs={}, ins={"in": "d/x.txt"}, params={}, tags={})
+    mreq = dict(op="expand", proc="multi", cmd="tool {i:in} > {o:res|.tsv} 2> {o:log|.txt} 3> {o:aux} 4> {o:packed|.txt.gz} 5> {o:v2|.v1.2-b_c.tar}", outs={}, ins={"in": "d/x.txt"}, params={}, tags={})
     seen = set()
     for rep in range(4):
         for a in call_probe([mreq] * 4):
             chk.evaluations += 1
             seen.add(json.dumps(a.get("outs", {}), sort_keys=True))
-    want = {"res": "x.txt.multi.res.tsv", "log": "x.txt.multi.log.txt", "aux": "x.txt.multi.aux"}
+    want = {"res": "x.txt.multi.res.tsv", "log": "x.txt.multi.log.txt", "aux": "x.txt.multi.aux", "packed": "x.txt.multi.packed.txt.gz", "v2": "x.txt.multi.v2.v1.2-b_c.tar"}
     for sj in sorted(seen):
         got = json.loads(sj)
         bad = [k for k in want if not (str(got.get(k, "")).endswith(want[k].split("multi.")[1]) and "multi" in str(got.get(k, "")))]
         if bad or len(set(got.values())) != len(want):
-            chk.violation("default output names of a process with out-ports res|.tsv, log|.txt, aux do not carry their own port name / extension: %s" % sj, dict(request=mreq, answer=got)); break
+            chk.violation("default output names of a process with out-ports res|.tsv, log|.txt, aux, packed|.txt.gz, v2|.v1.2-b_c.tar do not carry their own port name / extension: %s" % sj, dict(request=mreq, answer=got)); break
         elif got != want:
             print("DRIFT: default output names %r differ from the transcription %r" % (got, want), flush=True)
     else:
-        chk.nontrivial.add("default-names:3 ports")
+        chk.nontrivial.add("default-names:5 ports")
     if len(seen) > 1:
         chk.violation("default output names of a 3-out-port process change between evaluations: %s" % sorted(seen)[:3], dict(request=mreq))
     # missing values stop the program instead of producing an empty / unreplaced placeholder
